@@ -2,7 +2,7 @@
 from . import common as C
 
 ALSO_RELEASE = True
-RULE = ('index probe (hook H2): K in {1,4,32,250,1000} (fan-out 454..5), key counts around every leaf/fan-out/min-fill '
+RULE = ('index probe (hook H2): K in {1,4,32,138,250,503,1000} (fan-out 454..5; 138 and 503 make a full node end exactly at the block end), key counts around every leaf/fan-out/min-fill '
         'boundary up to 3 node levels, version runs longer than a block and ending exactly at block boundaries, '
         'timestamp ties and deletion markers, pushes in random order; every present key and absent keys below/between/'
         'above queried in memory, on disk, after load; index file bytes compared with the Coq serialiser (hash masked); '
@@ -19,17 +19,18 @@ def key_of(K, i):
 
 
 def gen_script(rng, tier, big):
-    K = rng.choice([1, 4, 32, 250, 1000] if not big else [250, 1000, 1000])
+    K = rng.choice([1, 4, 32, 138, 250, 503, 1000] if not big else [250, 503, 503, 138, 1000, 1000])
     per = PER_LEAF(K)
     fan = FANOUT(K)
     # number of keys: around interesting boundaries
-    maxkeys = 120 if K == 1 else (400 if K <= 32 else (260 if K == 250 else 120))
+    maxkeys = 120 if K == 1 else (400 if K <= 32 else (700 if K == 138 else (260 if K == 250 else 120)))
     if big:
-        nk = rng.choice([fan * per + 1, fan * per, (fan + 1) * per, 2 * fan * per + 3, 3 * per * fan])
+        # exactly `fan` leaves (a completely full node), one more, fan+min_fill, two full nodes ...
+        nk = rng.choice([fan * per + 1, fan * per, fan * per - per + 1, (fan + 1) * per, (fan + fan // 2 + 1) * per, 2 * fan * per + 3, 3 * per * fan])
         nk = min(nk, maxkeys if K != 1000 else 110)
     else:
         cands = [1, 2, per - 1, per, per + 1, 2 * per, 2 * per + 1, rng.randrange(1, 4 * per + 2),
-                 per * (fan // 2), per * fan // 3]
+                 per * (fan // 2), per * fan // 3, per * fan, per * fan - per + 1]
         nk = max(1, min(rng.choice(cands), maxkeys))
     # versions per key
     style = rng.choice(['one', 'few', 'longrun', 'boundary'])
@@ -138,7 +139,9 @@ def oracle(lines, io, spec=None):
             fails.append('line %d `%s`: on-disk answer `%s` differs from in-memory answer `%s`' % (b, lines[b], y, x))
         if z != x:
             fails.append('line %d `%s`: answer after load `%s` differs from the original in-memory answer `%s`' % (c, lines[c], z, x))
-    if io[dump_i].startswith('idx dump Err') or (load_i < len(io) and io[load_i] != 'idx load ok'):
+    if dump_i >= len(io):
+        fails.append('script did not run to the dump (crash / unsupported)')
+    elif io[dump_i].startswith('idx dump Err') or (load_i < len(io) and io[load_i] != 'idx load ok'):
         fails.append('dump/load failed: %s / %s' % (io[dump_i], io[load_i] if load_i < len(io) else '?'))
     return fails[:6]
 
